@@ -138,8 +138,8 @@ Fixpoint strings_upto (n : nat) (alpha : list N) : list str :=
   | O => [[]]
   | S k => [] :: flat_map (fun c => map (cons c) (strings_upto k alpha)) alpha
   end.
-Definition exh (f : str -> bool) (alpha : list N) (expected : list str) : bool :=
-  strs_eqb (filter f (strings_upto 4 alpha)) expected.
+Definition exh (n : nat) (f : str -> bool) (alpha : list N) (expected : list str) : bool :=
+  strs_eqb (filter f (strings_upto n alpha)) expected.
 """
 
 
@@ -158,7 +158,7 @@ class Impl:
         self.base, self.pk, self.jp = base, pk, jp
         self.exec_log = []
         self.import_log = []
-        self._real_importlib = base.importlib
+        self._real_importlib = getattr(base, "importlib", None)
         impl = self
 
         def spy_exec(code, *a, **k):
@@ -174,7 +174,8 @@ class Impl:
                 return impl._real_importlib.import_module(name, *a, **k)
 
         base.exec = spy_exec
-        base.importlib = SpyImportlib()
+        if self._real_importlib is not None:
+            base.importlib = SpyImportlib()
         self.whitelist = list(base.WHITELIST)
         self.reserved = list(base.RESERVED_FIELDS.keys())
         self.allowed_modules = {"flow.record.fieldtypes"} | {
@@ -185,7 +186,8 @@ class Impl:
             del self.base.exec
         except AttributeError:
             pass
-        self.base.importlib = self._real_importlib
+        if self._real_importlib is not None:
+            self.base.importlib = self._real_importlib
 
     def clear_cache(self):
         cc = getattr(self.base._generate_record_class, "cache_clear", None)
@@ -317,8 +319,8 @@ SYMBOLS = ["a", "Z", "0", "_", "/", "\n", "\r", "\x00", "'", '"', "(", ")", ";",
 
 
 def trip_payloads(trip):
-    t = trip.replace("\\", "\\\\").replace("'", "\\'")
-    call = "open('%s','w')" % t
+    # the path is spelled in hex so that neither "/" -> "_" nor quoting can defuse the payload
+    call = "open(bytes.fromhex('%s').decode(),'w')" % trip.encode().hex()
     return dict(
         type_name=[
             "x(Record):\n    pass\n%s\nclass y" % call,
@@ -583,7 +585,21 @@ def match_known(kf, case):
     return None
 
 
-def run_cases(ctx, impl, kf, trip, thorough, limit_s=None):
+def evaluate(impl, route, name, fields, twin_cache, kf, trip):
+    """deliver one definition and judge it against the property -> (violation text | None, finding | None, info, res)"""
+    fields = [tuple(x) for x in fields]
+    res = impl.deliver(route, name, [list(x) for x in fields] if route != "ctor" else fields)
+    bad_import = [m for m in res["imports"] if m not in impl.allowed_modules]
+    viol, finding, info = judge(impl, route, name, fields, res, twin_cache, kf)
+    if bad_import and not viol:
+        viol = "a module outside the field-type whitelist was imported: %r" % bad_import[:3]
+    if os.path.exists(trip):
+        os.unlink(trip)
+        viol = "text of the definition was executed (tripwire file created)"
+    return viol, finding, info, res
+
+
+def run_cases(ctx, impl, kf, trip, thorough):
     """deliver every generated case; -> (records, first violation (what, replay) or None)"""
     gen = Gen(ctx, impl, trip)
     twin_cache = {}
@@ -594,15 +610,7 @@ def run_cases(ctx, impl, kf, trip, thorough, limit_s=None):
         if route == "avro-doc" and not fields:
             route = "json"          # the embedded-definition detection of the Avro reader needs at least one field
         fields = [tuple(x) for x in fields]
-        res = impl.deliver(route, name, [list(x) for x in fields] if route != "ctor" else fields)
-        bad_import = [m for m in res["imports"] if m not in impl.allowed_modules]
-        viol, finding, info = judge(impl, route, name, fields, res, twin_cache, kf)
-        if bad_import and not viol:
-            viol = "a module outside the field-type whitelist was imported: %r" % bad_import[:3]
-        if os.path.exists(trip) and not viol:
-            viol = "text of the definition was executed (tripwire file created)"
-        if os.path.exists(trip):
-            os.unlink(trip)
+        viol, finding, info, res = evaluate(impl, route, name, fields, twin_cache, kf, trip)
         rec = dict(route=route, name=name, fields=fields, tag=tag, accepted=res["accepted"], reached=res["reached_exec"],
                    error=res.get("error"), src=res["sources"][0] if res["accepted"] and len(res["sources"]) == 1 else None,
                    **info)
@@ -616,7 +624,7 @@ def run_cases(ctx, impl, kf, trip, thorough, limit_s=None):
                 first = ("%s (route %s, type name %r, fields %r -> %s)" % (
                     viol, route, name[:80], [(t[:40], n[:60]) for t, n in fields][:6],
                     "accepted" if res["accepted"] else res.get("error")),
-                    dict(kind="definition", route=route, name=name, fields=[list(x) for x in fields], tag=tag,
+                    dict(kind="definition", route=route, name=name, fields=[list(x) for x in fields], tag=tag, trip=trip,
                          outcome="accepted" if res["accepted"] else res.get("error"), violation=viol))
     return recs, first, nviol
 
@@ -739,10 +747,10 @@ def strings_upto(n, alpha):
     return [""] + [c + s for c in alpha for s in sub]
 
 
-def exhaustive_terms(ctx, impl):
-    """all strings of length <= 4 over a 10-symbol class-representative alphabet through the real validators"""
+def exhaustive_terms(ctx, impl, depth):
+    """all strings of length <= depth over a 10-symbol class-representative alphabet through the real validators"""
     base = impl.base
-    allstr = strings_upto(4, EXH_ALPHABET)
+    allstr = strings_upto(depth, EXH_ALPHABET)
     v_true = [s for s in allstr if base.is_valid_field_name(s, True)]
     v_false = [s for s in allstr if base.is_valid_field_name(s, False)]
     reached = []
@@ -762,16 +770,16 @@ def exhaustive_terms(ctx, impl):
     alpha = "[" + "; ".join(str(ord(c)) for c in EXH_ALPHABET) + "]"
     lst = lambda xs: "[" + "; ".join(cN_str(x) for x in xs) + "]"  # noqa: E731
     terms = [
-        "exh (field_valid facts true) %s %s" % (alpha, lst(v_true)),
-        "exh (field_valid facts false) %s %s" % (alpha, lst(v_false)),
-        "exh (fun s => validators_pass facts s []) %s %s" % (alpha, lst(reached)),
+        "exh %d (field_valid facts true) %s %s" % (depth, alpha, lst(v_true)),
+        "exh %d (field_valid facts false) %s %s" % (depth, alpha, lst(v_false)),
+        "exh %d (fun s => validators_pass facts s []) %s %s" % (depth, alpha, lst(reached)),
     ]
     # the compiled patterns themselves, when the module still has them
     for attr, fact in (("RE_VALID_FIELD_NAME", "nf_field_re"), ("RE_VALID_RECORD_TYPE_NAME", "nf_type_re")):
         pat = getattr(base, attr, None)
         if pat is not None and hasattr(pat, "match"):
             m = [s for s in allstr if pat.match(s)]
-            terms.append("exh (re_match (%s facts)) %s %s" % (fact, alpha, lst(m)))
+            terms.append("exh %d (re_match (%s facts)) %s %s" % (depth, fact, alpha, lst(m)))
     return terms, len(allstr), dict(valid_checked=len(v_true), valid_unchecked=len(v_false), reach_exec=len(reached))
 
 
@@ -809,7 +817,7 @@ def run(ctx):
         "position; all Python keywords as field and type names; template identifiers; reserved and underscore names; every "
         "whitelist entry plain / list / list-of-list / wrong case; duplicates; 10^4-character names; seeded random mostly-"
         "valid definitions with hostile edits; malformed (non-string) definitions; Avro schemas without embedded "
-        "definition; plus EXHAUSTIVELY all %d strings of length <= 4 over a 10-symbol class-representative alphabet "
+        "definition; plus EXHAUSTIVELY all %d strings of length <= 4 (thorough: 5) over a 10-symbol class-representative alphabet "
         "through is_valid_field_name (both modes) and the type-name check. distinct = distinct (route, definition with "
         "letters/digits abstracted to their class and run lengths capped); every case is non-trivial (it carries a "
         "definition the validators must judge)" % (len(SYMBOLS), sum(10 ** k for k in range(5))))
@@ -842,11 +850,11 @@ def run(ctx):
         if first:
             ctx.violation(first[0], first[1])
             return
-        exh_terms, n_exh, exh_info = exhaustive_terms(ctx, impl)
+        depth = 5 if thorough else 4
+        exh_terms, n_exh, exh_info = exhaustive_terms(ctx, impl, depth)
     finally:
         impl.close()
-    ctx.coverage["exhaustive"] = True
-    ctx.coverage["exhaustive_scope"] = "all %d strings of length <= 4 over %r: %r" % (n_exh, EXH_ALPHABET, exh_info)
+    ctx.coverage["exhaustive_scope"] = "all %d strings of length <= %d over %r: %r" % (n_exh, depth, EXH_ALPHABET, exh_info)
 
     # residual class must be closed by the compile oracle
     residual = [r for r in recs if r["reached"] and not (r["g_name"] and r["g_fields"])]
@@ -941,11 +949,17 @@ def replay(obj):
     try:
         if kind == "definition":
             name, fields, route = obj["name"], [tuple(x) for x in obj["fields"]], obj["route"]
-            res = impl.deliver(route, name, [list(x) for x in fields] if route != "ctor" else fields)
-            viol, finding, info = judge(impl, route, name, fields, res, {}, kf)
-            if os.path.exists(trip):
-                os.unlink(trip)
-                viol = viol or "tripwire"
+            trip = obj.get("trip") or trip
+            made = None
+            if not os.path.isdir(os.path.dirname(trip)):       # the run's scratch directory is gone: recreate it
+                made = os.path.dirname(trip)
+                os.makedirs(made)
+            try:
+                viol, finding, info, res = evaluate(impl, route, name, fields, {}, kf, trip)
+            finally:
+                if made:
+                    import shutil
+                    shutil.rmtree(made, ignore_errors=True)
             print("replay: route %s type name %r fields %r -> %s; %s" % (
                 route, name, fields, "accepted" if res["accepted"] else res.get("error"), viol or "property holds"))
             return 1 if viol else 0
